@@ -3462,6 +3462,11 @@ class NameCheckVisitor(node_visitor.ReplacingNodeVisitor):
                     values.append(constrain_value(new_value, TRUTHY_CONSTRAINT))
 
         self.scopes.combine_subscopes(scopes)
+        if is_and:
+            # The constraints of the operands are combined explicitly below. If we left
+            # them on the operand values too, extract_constraints() would OR them
+            # together, which is wrong when the AND is false.
+            values = [_strip_constraints(value) for value in values]
         out = unite_values(*values)
         if definite_value is not None:
             out = annotate_value(out, [DefiniteValueExtension(definite_value)])
@@ -6062,6 +6067,13 @@ def _has_annotation_for_attr(typ: type, attr: str) -> bool:
 
 def _is_asynq_future(value: Value) -> bool:
     return value.is_type(asynq.FutureBase) or value.is_type(asynq.AsyncTask)
+
+
+def _strip_constraints(value: Value) -> Value:
+    if isinstance(value, MultiValuedValue):
+        return unite_values(*[_strip_constraints(val) for val in value.vals])
+    value, _ = unannotate_value(value, ConstraintExtension)
+    return value
 
 
 def _extract_definite_value(val: Value) -> Optional[bool]:
